@@ -8,7 +8,7 @@ Driver/Regex.lean — commands for C10 / C11.
   RX_VALIDATE <s>          → ok | err <Class>
   RX_COMPILE <s> <Σ>       → ok NFA … | err <Class>      (symbols are code points)
   RX_PIPE <s> <Σ>          → validate <res> compile <res nstates>
-  RX_CMP <s1> <s2> <Σ>     → ok eq sub sup | err <Class>
+  RX_CMP <s1> <s2> <Σ>     → ok eq sub sup | err <Class> | budget (driver-side search limit)
 
 tokens print as  LP RP U I S ST PL OP Q:lo:hi CC L:cp,cp… W .
 -/
@@ -76,22 +76,23 @@ def rxPipe : P String := do
 def normSet (l : List Nat) : List Nat :=
   (sortInts (l.map Int.ofNat)).map Int.toNat
 
-/-- Is there a word accepted by `a` and not by `b`?  BFS over pairs of subset states. -/
-partial def findDiff (a b : NFA Nat Char) (syms : List Char)
-    (work : List (List Nat × List Nat)) (seen : List (List Nat × List Nat)) : Bool :=
-  match work with
-  | [] => false
-  | (s1, s2) :: rest =>
-      if a.anyFinal s1 && !b.anyFinal s2 then true
+/-- Is there a word accepted by `a` and not by `b`?  BFS over pairs of subset states, at most
+`fuel` expansions (`none` = budget exhausted). -/
+def findDiff (a b : NFA Nat Char) (syms : List Char) :
+    Nat → List (List Nat × List Nat) → List (List Nat × List Nat) → Option Bool
+  | 0, _, _ => none
+  | _ + 1, [], _ => some false
+  | fuel + 1, (s1, s2) :: rest, seen =>
+      if a.anyFinal s1 && !b.anyFinal s2 then some true
       else
         let succs := syms.map fun c => (normSet (a.nextStates s1 c), normSet (b.nextStates s2 c))
         let new := dedup (succs.filter fun p => !(seen.contains p))
-        findDiff a b syms (rest ++ new) (seen ++ new)
+        findDiff a b syms fuel (rest ++ new) (seen ++ new)
 
-def langSubset (a b : NFA Nat Char) : Bool :=
+def langSubset (a b : NFA Nat Char) : Option Bool :=
   let syms := dedup (a.syms ++ b.syms)
   let s0 := (normSet (a.closure a.init), normSet (b.closure b.init))
-  !(findDiff a b syms [s0] [s0])
+  (findDiff a b syms 400 [s0] [s0]).map (!·)
 
 def rxCmp : P String := do
   let s1 ← str
@@ -103,9 +104,10 @@ def rxCmp : P String := do
     match fromRegex s2 sy with
     | .error e => pure ("err " ++ e.name)
     | .ok n2 =>
-      let sub := langSubset n1 n2
-      let sup := langSubset n2 n1
-      pure (" ".intercalate ["ok", showBool (sub && sup), showBool sub, showBool sup])
+      match langSubset n1 n2, langSubset n2 n1 with
+      | some sub, some sup =>
+          pure (" ".intercalate ["ok", showBool (sub && sup), showBool sub, showBool sup])
+      | _, _ => pure "budget"
 
 def handle (cmd : String) (args : List String) : Except String String :=
   match cmd with
